@@ -98,7 +98,9 @@ CloseTo(obs, num, den, tol) == Abs(obs * (den \div SC) - num) <= tol * (den \div
 \*                  n (number of output points), first / last (bit-exact flags), out (points, scaled SC; only
 \*                  for pieces at lattice parameters)
 Allowed(e) ==
-  CASE e.op = "cubic" ->
+  \* (e.tnan = 1: the parameter is NaN - there is no value to expect, but there is an answer)
+  CASE e.op \in {"cubic", "spline"} /\ e.tnan = 1 -> e.panic = 0
+    [] e.op = "cubic" ->
          /\ e.panic = 0
          /\ \A c \in 1..Len(e.P) :
               LET P == e.P[c]  tol == Tol(MaxAbsP(P)) IN
